@@ -50,10 +50,10 @@ def combos(tier):
     return out
 
 
-def run(spec, cfg, sc, limit, expire_at):
+def run(spec, cfg, sc, limit, expire_at, time_limit=1.0):
     c = dict(cfg)
     c["iteration_limit"] = limit
-    c["params"] = {"time_limit": 1.0}
+    c["params"] = {"time_limit": time_limit}
     clock = R.VirtualClock(expire_at=expire_at)
     clock.record_sites = True
 
@@ -87,6 +87,7 @@ def cases(tier, seed):
             out.append({"spec": spec, "cfg": cfg, "sc": sc, "kind": "iter", "stops": ks[i:i + 16]})
         for i in range(0, len(js), 16):
             out.append({"spec": spec, "cfg": cfg, "sc": sc, "kind": "clock", "stops": js[i:i + 16]})
+        out.append({"spec": spec, "cfg": cfg, "sc": sc, "kind": "zero_deadline", "stops": [0.0, 1e-9]})
     return out
 
 
@@ -120,6 +121,20 @@ def run_case(case):
             viol.append({"sig": f"C08|{case['kind']}|{what}", "msg": f"{what}: {msg} at {at}",
                          "case": dict(case, stops=[stop])})
 
+        if case["kind"] == "zero_deadline":
+            # the deadline has passed before the first step: the start itself is returned, nothing is computed
+            ctx = run(spec, cfg, sc, HOR, None, time_limit=stop)
+            rec = ctx.rec
+            keys.append(f"{spec['tag']}|{G.cfg_key(cfg)}|zero_deadline|{stop}")
+            if rec.result is None:
+                bad("exception", f"{rec.exc}")
+            else:
+                r = rec.result
+                if r.status.name != "TimeLimit" or r.iterations != 0 or len(rec.trials) != 0 or r.num_accepted_steps != 0:
+                    bad("deadline_already_passed", f"time_limit={stop}: status {r.status.name}, {r.iterations} iterations, {len(rec.trials)} trial steps")
+                elif not M.same(rec.solver.final_iterate, point_after(0)):
+                    bad("deadline_already_passed", "the returned point is not the start")
+            continue
         if case["kind"] == "iter":
             ctx = run(spec, cfg, sc, stop, None)
         else:
